@@ -44,14 +44,25 @@ def opaque_leaf(path, ty):
     return Opaque(".".join(str(x) for x in path))
 
 
-def build(p, ty, leaf=top_leaf, path=(), overrides=None):
+def build(p, ty, leaf=top_leaf, path=(), overrides=None, mkref=None):
     """abstract value of type `ty`; scalars come from leaf(path, ty);
-    overrides: dict dotted-path -> value"""
+    overrides: dict dotted-path -> value; mkref(value, mutable) allocates a
+    cell for reference-typed fields (without it references are TOP)"""
     if overrides:
         key = ".".join(str(x) for x in path)
         if key in overrides:
             return overrides[key]
     ty = ty.strip()
+    if ty.startswith("&") and mkref is not None:
+        mut = ty.startswith("&mut ")
+        inner = ty[5:] if mut else ty[1:]
+        inner = inner.strip()
+        if inner.startswith("'"):
+            inner = inner.split(" ", 1)[1] if " " in inner else inner
+            if inner.startswith("mut "):
+                mut = True
+                inner = inner[4:]
+        return mkref(build(p, inner, leaf, path, overrides, mkref), mut)
     if ty in D.INT_TYPES or ty in ("f32", "f64"):
         return leaf(path, ty)
     if ty == "()":
@@ -60,14 +71,14 @@ def build(p, ty, leaf=top_leaf, path=(), overrides=None):
     if m:
         et, n = m.group(1), int(m.group(2))
         if n <= 16:
-            return Arr([build(p, et, leaf, path + (i,), overrides) for i in range(n)])
-        return ArrS(build(p, et, leaf, path + ("*",), overrides), n)
+            return Arr([build(p, et, leaf, path + (i,), overrides, mkref) for i in range(n)])
+        return ArrS(build(p, et, leaf, path + ("*",), overrides, mkref), n)
     if ty.startswith("(") and ty.endswith(")"):
         _, args = split_generic_args("T<" + ty[1:-1] + ">")
-        return Agg([build(p, a, leaf, path + (i,), overrides) for i, a in enumerate(args)])
+        return Agg([build(p, a, leaf, path + (i,), overrides, mkref) for i, a in enumerate(args)])
     base, args = split_generic_args(ty)
     if base == "core::option::Option":
-        return En({0: (), 1: (build(p, args[0], leaf, path + ("Some",), overrides),)})
+        return En({0: (), 1: (build(p, args[0], leaf, path + ("Some",), overrides, mkref),)})
     if base == "core::marker::PhantomData":
         return Agg(())
     t = p.types.get(base)
@@ -75,11 +86,11 @@ def build(p, ty, leaf=top_leaf, path=(), overrides=None):
         return TOP
     if t["kind"] == "Struct":
         fs = t["variants"][0]["fields"]
-        return Agg([build(p, f["ty"], leaf, path + (f["n"],), overrides) for f in fs])
+        return Agg([build(p, f["ty"], leaf, path + (f["n"],), overrides, mkref) for f in fs])
     if t["kind"] == "Enum":
         vs = {}
         for vi, v in enumerate(t["variants"]):
-            vs[vi] = tuple(build(p, f["ty"], leaf, path + (v["n"], f["n"]), overrides) for f in v["fields"])
+            vs[vi] = tuple(build(p, f["ty"], leaf, path + (v["n"], f["n"]), overrides, mkref) for f in v["fields"])
         return En(vs)
     return TOP
 
